@@ -15,7 +15,8 @@ RULE = ('Hypothesis documents (profile "full") x include/exclude selections: for
         'includes, all 37 single-category excludes, 37 single/single pairs chosen by a rotation derived from the '
         'document (so that all 37x37 pairs are covered across documents), the identity selections (None/None, '
         'include=all, exclude=empty) and 10 Hypothesis-drawn larger sets (size 0..6) in set/list/tuple/bare-member '
-        'shape.  Oracle (metamorphic): U = dumps(doc, eKern) aligned with the abstract document; the expected filtered '
+        'shape; every drawn include/exclude pair (and the module constant BEKERN_CATEGORIES) also as caller-owned objects that are used '
+        'together and then the include object alone.  Oracle (metamorphic): U = dumps(doc, eKern) aligned with the abstract document; the expected filtered '
         'export is computed from U by kv/xform.py F (sub-parts of notes/rests classified lexically, chord members '
         'individually, other tokens by category, closure from the README tree in kv/cats.py, all-placeholder rows '
         'dropped).  An evaluation is one (document, selection); it is non-trivial when the selection is neither empty '
@@ -101,6 +102,30 @@ def check(case):
                       include=I, exclude=Xc)
         if 0 < len(sel) < 37 and got_text != U and got_text != '':
             keys.append([text, sorted(sel)])
+    # ONE include collection and ONE exclude collection owned by the caller (and the module constant BEKERN_CATEGORIES
+    # itself): used together, then the include object alone - it still means what it holds, and it was not rewritten
+    for I, Xc, shape in list(case['sels']) + [['BEKERN', ['DURATION', 'DECORATION'], 'set'], ['BEKERN', ['NOTE_REST'], 'list']]:
+        if I is None or not Xc:
+            continue
+        if I == 'BEKERN':
+            inc_obj, I = kp.BEKERN_CATEGORIES, sorted(c.name for c in kp.BEKERN_CATEGORIES)
+        else:
+            inc_obj = [TC[x] for x in I] if shape == 'list' else {TC[x] for x in I}
+        exc_obj = [TC[x] for x in Xc] if shape == 'list' else {TC[x] for x in Xc}
+        before = (sorted(c.name for c in inc_obj), sorted(c.name for c in exc_obj))
+        first = K.dumps(kdoc, encoding=kp.Encoding.eKern, include=inc_obj, exclude=exc_obj)
+        if (sorted(c.name for c in inc_obj), sorted(c.name for c in exc_obj)) != before:
+            raise Bad('argument-rewritten', f'dumps(include={before[0]}, exclude={before[1]}) rewrote the caller\'s collection: now '
+                                            f'include={sorted(c.name for c in inc_obj)} exclude={sorted(c.name for c in exc_obj)}')
+        diff = X.same(K.grid(first), X.render(X.F(base, cats.selected(I, Xc))))
+        if diff:
+            raise Bad('filter', f'include={I} exclude={Xc} [caller-owned {shape}]: {diff}', include=I, exclude=Xc)
+        again = K.dumps(kdoc, encoding=kp.Encoding.eKern, include=inc_obj)
+        n += 2
+        diff = X.same(K.grid(again), X.render(X.F(base, cats.selected(I, None))))
+        if diff:
+            raise Bad('include-object-reused', f'include={I} (the object that was used with exclude={Xc} in the call before, now alone): {diff}',
+                      include=I, exclude=None)
     r = Result(nontrivial=bool(keys), classes=K.doc_classes(doc, a), evals=n,
                sample={'document': text, 'example_selection': {'include': case['sels'][0][0], 'exclude': case['sels'][0][1]}})
     r.keys = keys
